@@ -133,6 +133,8 @@ pub trait DynTree: MaybeSync {
     fn roundtrip(&self) -> Result<Box<dyn DynTree>, String>;
     fn clone_box(&self) -> Box<dyn DynTree>;
     fn eq_dyn(&self, other: &dyn Any) -> bool;
+    /// `self.clone_from(other)` when `other` has the same type
+    fn clone_from_dyn(&mut self, other: &dyn Any) -> bool;
     fn as_any(&self) -> &dyn Any;
     fn into_iter_collect(self: Box<Self>) -> String;
 }
@@ -176,6 +178,7 @@ fn o_hint(h: (usize, Option<usize>)) -> String {
 fn iterhist<I, V: Into<u128>>(it: I, ops: &str, conv: impl Fn(I::Item) -> V) -> String
 where
     I: DoubleEndedIterator + ExactSizeIterator,
+    I::Item: Ord,
 {
     let o_item = |v: Option<I::Item>| o_item(v.map(&conv));
     let mut out = vec![];
@@ -183,12 +186,20 @@ where
     for c in ops.chars() {
         // terminal calls that consume the iterator itself (so that an overridden `count` / `last` / `fold` /
         // `rfold` is reached — `by_ref()` goes through `try_fold`): `#` count, `$` last, `%` fold, `^` rev().fold
-        if "#$%^".contains(c) {
+        if "#$%^mMer".contains(c) {
             let it = slot.take().unwrap();
             out.push(match c {
                 '#' => format!("V:{}", it.count()),
                 '$' => o_item(it.last()),
                 '%' => o_list(it.fold(vec![], |mut a, x| { a.push(conv(x).into()); a })),
+                'm' => o_item(it.min()),
+                'M' => o_item(it.max()),
+                'e' => {
+                    let mut a = vec![];
+                    it.for_each(|x| a.push(conv(x).into()));
+                    o_list(a)
+                }
+                'r' => o_item(it.reduce(|a, b| if a >= b { a } else { b })),
                 _ => o_list(it.rev().fold(vec![], |mut a, x| { a.push(conv(x).into()); a })),
             });
             break;
@@ -215,16 +226,25 @@ where
 pub fn fwdhist<I, V: Into<u128>>(it: I, ops: &str, conv: impl Fn(I::Item) -> V) -> String
 where
     I: Iterator,
+    I::Item: Ord,
 {
     let o_item = |v: Option<I::Item>| o_item(v.map(&conv));
     let mut out = vec![];
     let mut slot = Some(it);
     for c in ops.chars() {
-        if "#$%".contains(c) {
+        if "#$%mMer".contains(c) {
             let it = slot.take().unwrap();
             out.push(match c {
                 '#' => format!("V:{}", it.count()),
                 '$' => o_item(it.last()),
+                'm' => o_item(it.min()),
+                'M' => o_item(it.max()),
+                'e' => {
+                    let mut a = vec![];
+                    it.for_each(|x| a.push(conv(x).into()));
+                    o_list(a)
+                }
+                'r' => o_item(it.reduce(|a, b| if a >= b { a } else { b })),
                 _ => o_list(it.fold(vec![], |mut a, x| { a.push(conv(x).into()); a })),
             });
             break;
@@ -302,6 +322,15 @@ macro_rules! impl_tree {
             }
             fn eq_dyn(&self, other: &dyn Any) -> bool {
                 other.downcast_ref::<Self>().map(|o| o == self).unwrap_or(false)
+            }
+            fn clone_from_dyn(&mut self, other: &dyn Any) -> bool {
+                match other.downcast_ref::<Self>() {
+                    Some(o) => {
+                        self.clone_from(o);
+                        true
+                    }
+                    None => false,
+                }
             }
             fn as_any(&self) -> &dyn Any {
                 self
@@ -728,6 +757,39 @@ impl Interp {
                     }
                 }
             }
+            // cf <dst> <src>: `dst.clone_from(&src)` (the second method of `Clone`) on two values of the same type
+            "cf" => {
+                let d: usize = toks[1].parse().unwrap();
+                let sidx: usize = toks[2].parse().unwrap();
+                if d == sidx || d >= self.slots.len() || sidx >= self.slots.len() {
+                    return "bad-op".into();
+                }
+                let mut dst = std::mem::replace(&mut self.slots[d], Slot::Empty);
+                let src = &self.slots[sidx];
+                let r = catch_unwind(AssertUnwindSafe(|| match (&mut dst, src) {
+                    (Slot::Qv(a, _), Slot::Qv(b, _)) => { a.clone_from(b); true }
+                    (Slot::Qvb(a), Slot::Qvb(b)) => { a.clone_from(b); true }
+                    (Slot::Rsq256(a, _), Slot::Rsq256(b, _)) => { a.clone_from(b); true }
+                    (Slot::Rsq512(a, _), Slot::Rsq512(b, _)) => { a.clone_from(b); true }
+                    (Slot::Bv(a, _), Slot::Bv(b, _)) => { a.clone_from(b); true }
+                    (Slot::Bvm(a, _), Slot::Bvm(b, _)) => { a.clone_from(b); true }
+                    (Slot::Rsn(a, _), Slot::Rsn(b, _)) => { a.clone_from(b); true }
+                    (Slot::Rsw(a, _), Slot::Rsw(b, _)) => { a.clone_from(b); true }
+                    (Slot::Da0(a, _), Slot::Da0(b, _)) => { a.clone_from(b); true }
+                    (Slot::Da1(a, _), Slot::Da1(b, _)) => { a.clone_from(b); true }
+                    (Slot::Tree(a, _), Slot::Tree(b, _)) => a.clone_from_dyn(b.as_any()),
+                    _ => false,
+                }));
+                self.slots[d] = dst;
+                match r {
+                    Ok(true) => "ok".into(),
+                    Ok(false) => "bad-op".into(),
+                    Err(_) => {
+                        let m = LAST_PANIC.with(|p| p.borrow().clone());
+                        format!("F:{}", classify(&m))
+                    }
+                }
+            }
             "op" => {
                 let k: usize = toks[1].parse().unwrap();
                 let mut slot = std::mem::replace(&mut self.slots[k], Slot::Empty);
@@ -1134,6 +1196,8 @@ impl Interp {
                 "into_iter" => o_list(b.clone().into_iter().map(|x| x as u128)),
                 "fwdhist" => fwdhist(b.iter(), args.first().copied().unwrap_or(""), |x| x as u8),
                 "fwdhist_into" => fwdhist(b.clone().into_iter(), args.first().copied().unwrap_or(""), |x| x as u8),
+                "ones_hist" => fwdhist(b.ones_with_pos(g(0)), args.get(1).copied().unwrap_or(""), |x| x as u128),
+                "zeros_hist" => fwdhist(b.zeros_with_pos(g(0)), args.get(1).copied().unwrap_or(""), |x| x as u128),
                 "n_lines" => o_val(b.n_lines()),
                 "prefetch_line" => {
                     b.prefetch_line(g(0));
@@ -1164,12 +1228,18 @@ impl Interp {
                 "into_iter" => o_list(b.clone().into_iter().map(|x| x as u128)),
                 "fwdhist" => fwdhist(b.iter(), args.first().copied().unwrap_or(""), |x| x as u8),
                 "fwdhist_into" => fwdhist(b.clone().into_iter(), args.first().copied().unwrap_or(""), |x| x as u8),
+                "ones_hist" => fwdhist(b.ones_with_pos(g(0)), args.get(1).copied().unwrap_or(""), |x| x as u128),
+                "zeros_hist" => fwdhist(b.zeros_with_pos(g(0)), args.get(1).copied().unwrap_or(""), |x| x as u128),
                 _ => bv_q!(b, op, g),
             },
             Slot::Rsn(r, _) => rsbin_q!(r, op, g, wide = no),
             Slot::Rsw(r, _) => rsbin_q!(r, op, g, wide = yes),
             Slot::Da0(d, _) if op == "fwdhist" => fwdhist(d.iter(), args.first().copied().unwrap_or(""), |x| x as u8),
             Slot::Da1(d, _) if op == "fwdhist" => fwdhist(d.iter(), args.first().copied().unwrap_or(""), |x| x as u8),
+            Slot::Da0(d, _) if op == "ones_hist" => fwdhist(d.ones_with_pos(g(0)), args.get(1).copied().unwrap_or(""), |x| x as u128),
+            Slot::Da1(d, _) if op == "ones_hist" => fwdhist(d.ones_with_pos(g(0)), args.get(1).copied().unwrap_or(""), |x| x as u128),
+            Slot::Da0(d, _) if op == "zeros_hist" => fwdhist(d.zeros_with_pos(g(0)), args.get(1).copied().unwrap_or(""), |x| x as u128),
+            Slot::Da1(d, _) if op == "zeros_hist" => fwdhist(d.zeros_with_pos(g(0)), args.get(1).copied().unwrap_or(""), |x| x as u128),
             Slot::Da0(d, _) => da_q!(d, op, g),
             Slot::Da1(d, _) => da_q!(d, op, g),
             Slot::Tree(t, _) => match op {
